@@ -173,13 +173,29 @@ def main():
     # ---- torn writes: the generator writes through Path.write_text; a "torn"/"empty" fault lets the k-th such write on the
     # target open (truncate) the file, write only a prefix, and then stops the process — the file a user finds after Ctrl-C,
     # a full disk or a power cut.  ("crash"/"enospc"/"eio" faults fire earlier, at the open itself, and leave no file.)
-    if fault and fault["kind"] in ("torn", "empty"):
+    if fault and fault["kind"] in ("torn", "empty", "torn_anywhere", "enospc_anywhere"):
         import pathlib
         real_write_text = pathlib.Path.write_text
         tstate = {"n": 0}
+        anywhere = fault["kind"].endswith("_anywhere")
+        cwd_abs = os.path.abspath(job["cwd"])
 
         def write_text(self, data, *a, **kw):
-            if classify(str(self)) == "target" and state["armed"]:
+            # "_anywhere": whatever the generator writes below the project root counts (caches, temporary files), not only the
+            # target; "enospc_anywhere" writes a prefix and raises ENOSPC instead of stopping the process
+            inside = anywhere and os.path.abspath(str(self)).startswith(cwd_abs + os.sep) and not os.path.basename(str(self)).startswith("job-")
+            if anywhere and inside and state["armed"]:
+                tstate["n"] += 1
+                if tstate["n"] == fault["at"]:
+                    state["armed"] = False
+                    cut = max(1, (len(data) * fault.get("num", 1)) // fault.get("den", 2))
+                    real_write_text(self, data[:cut], *a, **kw)
+                    result["injected"] = {"kind": fault["kind"], "at": fault["at"], "path": str(self), "kept_chars": cut, "of": len(data)}
+                    if fault["kind"] == "enospc_anywhere":
+                        raise OSError(errno.ENOSPC, "No space left on device (injected)", str(self))
+                    raise InjectedCrash("injected torn write #%d" % fault["at"])
+                return real_write_text(self, data, *a, **kw)
+            if classify(str(self)) == "target" and state["armed"] and not anywhere:
                 tstate["n"] += 1
                 if tstate["n"] == fault["at"]:
                     state["armed"] = False
